@@ -215,6 +215,10 @@ int ApiRun::pick_cont(uint32_t x, bool need_free_cif) {
 // defined behaviour (cif_loop_get_packets() puts only the iterated loop off limits) and must neither disturb the iteration nor see
 // anything but the CIF's current content.  -1 if there is none.
 int ApiRun::pick_cont_beside_iter(uint32_t x) {
+    // not under allocation-failure enumeration (C17): a storage-engine allocation failure makes SQLite roll back the whole open
+    // transaction by itself - the iterator's - whichever call it happens in; that interplay is already covered (and accepted) for the
+    // iterator's own calls, which abandon the iterator afterwards
+    if (cfg.enumerate_alloc) return -1;
     std::vector<int> v;
     for (size_t i = 0; i < conts.size(); ++i) {
         if (!conts[i].h) continue;
